@@ -341,6 +341,7 @@ def base_axioms() -> List[z3.BoolRef]:
         ax.append(z3.ForAll([v], z3.Implies(isinst(v, n), z3.Not(hashable(v))), patterns=[hashable(v)]))
     for n in ("int", "str", "NoneType", "float", "bytes", "frozenset", "type"):
         ax.append(z3.ForAll([v], z3.Implies(cls(v) == K(n), hashable(v)), patterns=[hashable(v)]))
+    ax.append(z3.ForAll([v], hashable(cls(v)), patterns=[hashable(cls(v))]))
     ax.append(hashable(True_))
     ax.append(hashable(False_))
     for name, s in _strings.items():
